@@ -115,6 +115,7 @@ def generate(check, rng, tier, run_index):
             o['fmt'] = rng.choice(CELL_FORMATS)
             o['few_atoms'] = rng.weighted([(0, 6), (1, 1), (2, 2), (3, 1)])     # boundary sizes: save only the first 1-3 atoms
             o['all_frames'] = rng.chance(0.5)        # restart formats: save every frame (numbered files) instead of the first only
+            o['dialect'] = rng.chance(0.4)           # dcd / trr / gro: the saved file is rewritten into the dialect another program writes
         ops.append(o)
     return {'check': check, 'n_res': n_res, 'n_wat': n_wat, 'members': members, 'ops': ops}
 
@@ -1030,6 +1031,18 @@ def execute(check, case, workdir):
                     res.log.append('%d save_load(%s) m%d save raised %s' % (stepno, fmt, m.id, type(e).__name__))
                     res.probe('save_refused:' + flags)
                 if ok:
+                    if op.get('dialect') and fmt in ('dcd', 'trr', 'gro'):
+                        # the same values as another program stores them (simlib/foreign.py): opposite byte order, double precision
+                        # with velocities and forces, velocity columns
+                        from .. import foreign
+                        if fmt == 'dcd':
+                            foreign.dcd_swap_endianness(p)
+                        elif fmt == 'trr':
+                            foreign.trr_rewrite(p, True, stepno % 2 == 0, stepno % 3 == 0, stepno)
+                        else:
+                            foreign.gro_add_velocities(p, stepno)
+                        res.probe('save_load_through_foreign_dialect:' + fmt)
+                        flags += ',dialect'
                     try:
                         r = md.load(p) if fmt in ('h5', 'pdb', 'gro') else md.load(p, top=ts.topology)
                     except Exception as e:
